@@ -968,6 +968,7 @@ func (v *Verifier) indexAddr(st *State, x *ssa.IndexAddr) *Term {
 	switch t := v.substT(x.X.Type()).Underlying().(type) {
 	case *types.Slice:
 		v.safe(st, "index:slice", tAnd(tCmp("<=", intLit(0), i), tCmp("<", i, slLen(a))), x)
+		v.instantiateAt(st, i)
 		return pElem(slBase(a), tAdd(slOff(a), i))
 	case *types.Pointer: // *array
 		if arr, ok := t.Elem().Underlying().(*types.Array); ok {
@@ -1046,6 +1047,26 @@ func (v *Verifier) sliceOp(st *State, x *ssa.Slice) *Term {
 	}
 	v.note("abstracted: slice op")
 	return v.Y.fresh(v.D, "sl", "Slice")
+}
+
+// instantiateAt adds the instances of every registered quantified fact at index term i (engine-side
+// quantifier instantiation: keeps the queries ground where possible).
+func (v *Verifier) instantiateAt(st *State, i *Term) {
+	if _, lit := isIntLit(i); lit && len(st.qfacts) > 8 {
+		return
+	}
+	key := i.String()
+	for k, qf := range st.qfacts {
+		tag := fmt.Sprintf("%d@%s", k, key)
+		if st.qdone == nil {
+			st.qdone = map[string]bool{}
+		}
+		if st.qdone[tag] {
+			continue
+		}
+		st.qdone[tag] = true
+		st.assume(qf.inst(i))
+	}
 }
 
 // ---- maps
